@@ -33,6 +33,22 @@ def load_contracts(prop):
     return REG, out
 
 
+_LEDGER_CACHE = {}
+
+
+def _ledger_proved(prop):
+    if prop not in _LEDGER_CACHE:
+        names = set()
+        try:
+            with open(os.path.join(VERIF, "ledger", "%s.json" % prop)) as f:
+                for ent in json.load(f).get("functions", {}).values():
+                    names.update(ent.get("proved", []))
+        except (OSError, ValueError):
+            pass
+        _LEDGER_CACHE[prop] = names
+    return _LEDGER_CACHE[prop]
+
+
 def _worker(task):
     """verify one contracted function: generate, discharge, canary.  Runs in a forked process."""
     (root, prop, key, idx, tier) = task
@@ -81,19 +97,28 @@ def _worker(task):
                 seen[ob.name] = n + 1
                 if n:
                     ob.name = "%s~%d" % (ob.name, n)
-                discharge(ob, tier)
-                rec = {"name": ob.name, "kind": ob.kind, "status": ob.status, "time": round(ob.time, 4),
-                       "backend": ob.backend, "text": ob.text, "line": ob.line, "detail": ob.detail}
+                # an obligation with a declared known-finding region is expected to stay undecided / refuted on the
+                # unchanged tree: look once, ask the region question, and run the expensive fall-back chain on the
+                # full obligation only if the region does not explain it (C06: 4 such obligations cost 7 minutes).
+                # An obligation that the ledger records as proved always gets the full chain: it is expected to hold.
+                discharge(ob, tier, quick_only=bool(ob.regions) and ob.name not in _ledger_proved(prop))
+                outside = None
                 if ob.status in ("failed", "unknown") and ob.regions:
                     # known-finding regions: is the failure confined to a recorded region of the pre-state?
                     import z3 as _z3
                     from pyvc.engine import Obligation as _Ob
-                    rec["outside_region"] = {}
+                    outside = {}
                     for fid, term in ob.regions.items():
                         ob2 = _Ob(ob.name, ob.kind, list(ob.pc) + [_z3.Not(term)], ob.goal)
                         ob2.logic = getattr(ob, "logic", None)
                         discharge(ob2, tier, want_model=False)
-                        rec["outside_region"][fid] = ob2.status
+                        outside[fid] = ob2.status
+                    if ob.status == "unknown" and not any(v == "proved" for v in outside.values()):
+                        discharge(ob, tier)          # not explained by a region: full chain
+                rec = {"name": ob.name, "kind": ob.kind, "status": ob.status, "time": round(ob.time, 4),
+                       "backend": ob.backend, "text": ob.text, "line": ob.line, "detail": ob.detail}
+                if outside is not None and ob.status in ("failed", "unknown"):
+                    rec["outside_region"] = outside
                 if ob.status == "failed":
                     rec["model"] = ob.model
                     try:
